@@ -30,3 +30,4 @@ def run(ctx, res):
     lists.rule_error_propagation(prog, res, cl)
     dispatch.decode_table(prog, engine.Filtered(res, {"E-map"}, ("return-shape", "corrupt-arm", "typed-arm", "arm-complete", "default-arm", "empty-arm")), rule="E-map")
     bitio.rule_guard_cursor(prog, res, bitio.PARSE, 2)
+    bitio.import_transport(prog, res, signed=False)
